@@ -1056,7 +1056,9 @@ pub fn run_e2e(args: &[String]) -> i32 {
         let _ = &last_snap;
         let (finished, no_panic) = d.finish();
         if !finished {
-            errors.push(format!("history {h}: session thread still running 3 s after the connection was closed"));
+            errors.push(format!("history {h}: session thread still running 120 s after the connection was closed"));
+            // never run a second debugger in this process beside a live one
+            break;
         }
         if !no_panic {
             errors.push(format!("history {h}: session thread panicked"));
